@@ -437,11 +437,11 @@ def step (st : St) (line : String) : St × String :=
     (match st.get (nat 1) with
      | some (.hs S hs) => (st, s!"ok {hex (hs.rawSplit S).1} {hex (hs.rawSplit S).2}")
      | _ => (st, "nosession"))
-  | "to_transport" | "to_stateless" =>
+  | "to_transport" | "to_stateless" | "to_transport_tf" | "to_stateless_tf" =>   -- `_tf`: through the TryFrom impls
     (match st.get (nat 1) with
      | some (.hs S hs) =>
        (match TS.ofHandshake S hs with
-        | .ok ts => (st.put (nat 1) (if arg 0 == "to_stateless" then .sts S ts else .ts S ts), "ok")
+        | .ok ts => (st.put (nat 1) (if arg 0 == "to_stateless" || arg 0 == "to_stateless_tf" then .sts S ts else .ts S ts), "ok")
         | .err e => (st.put (nat 1) .dead, s!"err {e.toStr}")
         | .panic _ => (st, "panic"))
      | _ => (st, "nosession"))
